@@ -137,6 +137,22 @@ ViewNoLast == <<st, [i \in DOMAIN aux |-> [aux[i] EXCEPT !.lastc = "none"]], wir
 (* ---------------------------------------------------------------------- *)
 (* properties                                                             *)
 (* ---------------------------------------------------------------------- *)
+(* the shape of the state (flags are consistent with each other)           *)
+TypeOK ==
+  /\ Len(aux) = Len(st) /\ nrest \in 0..MaxRestore /\ Len(st) <= MaxInst
+  /\ \A i \in Inst :
+       LET s == st[i] a == aux[i] IN
+       /\ s.cls \in Classes
+       /\ s.started \in BOOLEAN /\ s.finished \in BOOLEAN /\ s.gaveKey \in BOOLEAN /\ s.gaveMsg \in BOOLEAN
+       /\ s.restored \in BOOLEAN /\ s.hasx \in BOOLEAN
+       /\ (s.gaveKey => s.finished /\ s.started) /\ (s.gaveMsg => s.started /\ ~s.restored)
+       /\ (s.started <=> s.hasx) /\ (s.started => Len(s.out) = GESize(s.ps.grp)) /\ (~s.started => s.out = <<>>)
+       /\ (s.restored => s.started /\ a.origin \in 1..(i - 1)) /\ (~s.restored => a.origin = 0)
+       /\ a.nfin \in 0..2 /\ (a.nfin = 0 <=> ~s.finished) /\ (a.nkey > 0 <=> s.gaveKey)
+       /\ (s.gaveMsg <=> a.nmsg > 0)
+  /\ \A m \in wire : \E i \in Inst : st[i].gaveMsg /\ m = <<SideByte(st[i].cls)>> \o st[i].out
+  /\ \A d \in disk : d.by \in Inst /\ st[d.by].started /\ d.blob = BlobOf(st[d.by])
+
 Peer(c1, c2) == (c1 = "A" /\ c2 = "B") \/ (c1 = "B" /\ c2 = "A") \/ (c1 = "S" /\ c2 = "S")
 RECURSIVE Lineage(_)
 Lineage(i) == IF aux[i].origin = 0 THEN i ELSE Lineage(aux[i].origin)
